@@ -288,4 +288,75 @@ class BorisMatrices(Contract):
         yield 'canary:ST_equals_QT', _meq(result.ST, result.QT)
 
 
-CONTRACTS = [BorisIntegrate, BorisUpdateNodes, BorisEndPoint, BorisMatrices]
+
+# ------------------------------------------------------------------------------------------ Runge-Kutta-Nystroem (explicit tableaux)
+RKNF = 'pySDC/implementations/sweeper_classes/Runge_Kutta_Nystrom.py'
+
+
+class RKNUpdateNodes(Contract):
+    """explicit Runge-Kutta-Nystroem stages (A = velocity tableau, Abar = position tableau, c = nodes, a_j = build_f(f_j, u_j, t + c_j dt)):
+        x_m = x_0 + dt*c_m*v_0 + dt^2*sum_{j<m} Abar[m,j]*a_j,    v_m = v_0 + dt*sum_{j<m} A[m,j]*a_j,   f_m = eval_f(u_m, .) for all but the last stage
+    (the time handed to eval_f is left unspecified: the code passes the time of the previous stage; every shipped second-order
+    problem ignores it).  The implicit branch (bespoke to Velocity_Verlet) is not under contract."""
+
+    prop = 'C02'
+    name = 'RungeKuttaNystrom.update_nodes [explicit tableaux]'
+    target = (RKNF, 'RungeKuttaNystrom.update_nodes')
+    label = 'instance-proved'
+    native = False
+    stubs = _BorisBase.stubs[:2]
+
+    def instances(self, tier):
+        return [dict(cls='RKN', M=5)]
+
+    def build(self, inst, mk):
+        import importlib
+
+        mod = importlib.import_module('pySDC.implementations.sweeper_classes.Runge_Kutta_Nystrom')
+        M = inst['M']
+        L = make_level(getattr(mod, inst['cls']), M, mk, kind='particles', fill=False, sweeper_params={}, problem_class=BorisProblem)
+        sw = L.sweep
+        assert sw.coll.num_nodes == M and not sw.coll.implicit
+        # the type test of get_full_f sees the ghost data types
+        mod.particles, mod.fields, mod.acceleration = VecP, Vec, Vec
+        sw.coll.Qmat = mk.matrix('L.A', M + 1, M + 1, lambda i, j: i >= 1 and 1 <= j < i)
+        sw.QI = sw.coll.Qmat
+        sw.Qx = mk.matrix('L.Abar', M + 1, M + 1, lambda i, j: i >= 1 and 1 <= j < i)
+        sw.coll.nodes = onp.array([0] + [mk.real(f'L.c_{i}') for i in range(M)], dtype=object)
+        u = VecP()
+        u.pos, u.vel = mk.vec('L.x0'), mk.vec('L.v0')
+        u.m, u.q = 'mass', 'charge'
+        L.u[0] = u
+        L.status.sweep = 1
+        L.status.unlocked = True
+        return State(L=L, M=M, u0=VecP(u), call=sw.update_nodes)
+
+    def post(self, st, old, result, exc):
+        L, M, sw, P = st.L, st.M, st.L.sweep, st.L.prob
+        dt, A, Ab, c = L.dt, sw.QI, sw.Qx, sw.coll.nodes
+        yield 'returns_normally', exc is None
+        if exc is not None:
+            return
+        acc = {}
+        for m in range(1, M + 1):
+            ok = True
+            for j in range(1, m):
+                if j not in acc:
+                    acc[j] = P.find_build(L.f[j], L.u[j], L.time + dt * c[j])
+                ok = ok and acc[j] is not None
+            yield f'stage{m}:accelerations_built_from_earlier_stages_at_their_times', ok
+            if not ok:
+                continue
+            yield f'stage{m}:position', veq(L.u[m].pos, st.u0.pos + dt * c[m] * st.u0.vel + vsum(dt * dt * Ab[m, j] * acc[j] for j in range(1, m)))
+            yield f'stage{m}:velocity', veq(L.u[m].vel, st.u0.vel + vsum(dt * A[m, j] * acc[j] for j in range(1, m)))
+            if m < M:
+                er = P.find_eval(L.f[m])
+                yield f'f{m}:fields_at_the_stage_value', er is not None and bool(veq(er.u.pos, L.u[m].pos)) is True and bool(veq(er.u.vel, L.u[m].vel)) is True
+        yield 'u0_untouched', And(veq(L.u[0].pos, st.u0.pos), veq(L.u[0].vel, st.u0.vel))
+        yield 'status.updated', L.status.updated is True
+
+    def canary(self, st, old, result, exc):
+        yield 'canary:last_stage_position_without_accelerations', veq(st.L.u[st.M].pos, st.u0.pos + st.L.dt * st.L.sweep.coll.nodes[st.M] * st.u0.vel)
+
+
+CONTRACTS = [BorisIntegrate, BorisUpdateNodes, BorisEndPoint, BorisMatrices, RKNUpdateNodes]
